@@ -901,30 +901,63 @@ TRUSTED = [
     "the level list has fixed length max_levels",
 ]
 
-PROOF_FILES = ["C14/Model.v", "C14/LsmProofs.v", "C14/ConcProofs.v", "C14/KvTxnModel.v", "C14/KvTxnProofs.v", "C14/BtModel.v", "C14/BtProofs.v", "C14/Props.v"]
+PROOF_FILES = ["C14/Model.v", "C14/LsmProofs.v", "C14/SeqProofs.v", "C14/ConcProofs.v", "C14/KvTxnModel.v", "C14/KvTxnProofs.v", "C14/BtModel.v", "C14/BtProofs.v", "C14/Props.v"]
 
 
-class Sharded:
-    """ctx proxy: evaluate the cases of a family in small shards (8 coqc in parallel)."""
+class Pre:
+    """ctx proxy for one family.  coqc start-up dominates the cost of a run, so the in-Coq evaluation of all
+    families is started up front, concurrently (one coqc per ~150 cases), from a pre-pass that generates the same
+    cases (own RNG per family, derived from the run seed) and executes the implementation on them; run_family then
+    regenerates the identical cases and picks the finished evaluation up here.  If the terms differ (they never
+    should: everything is deterministic) the evaluation is simply done again."""
 
-    def __init__(self, ctx, shard):
-        self._ctx, self._shard = ctx, shard
+    def __init__(self, ctx, fam, n, pool):
+        import dataclasses
+        import random
+        from hsverif import coq
+        from hsverif.family import load_corpus, run_impl
+        self._ctx = ctx
+        self._seed = f"{ctx.seed}:{ctx.tier}:{fam.name}"
+        self.rng = random.Random(self._seed)
+        self.fam = dataclasses.replace(fam, parallel=fam.parallel and n > 400)
+        rng = random.Random(self._seed)
+        cases = load_corpus(ctx.pid, fam.name) + [fam.gen(rng) for _ in range(n)]
+        terms = []
+        for c, r in zip(cases, run_impl(self.fam, cases)):
+            if "ok" in r:
+                try:
+                    terms.append(fam.encode(c, r["ok"]))
+                except Exception:  # noqa: BLE001  (run_family reports it)
+                    pass
+        self._terms = terms
+        self._shard = max(20, min(150, (len(terms) + 3) // 4)) if len(terms) > 200 else len(terms) + 1
+        self._fut = pool.submit(coq.eval_cases, f"{ctx.pid}_{fam.name}", fam.imports, fam.ok_fn, fam.case_type, terms,
+                                shard=self._shard, workers=4) if terms else None
 
     def __getattr__(self, name):
         return getattr(self._ctx, name)
 
     def coq_cases(self, tag, imports, ok_fn, case_type, cases):
         from hsverif import coq
-        shard = max(5, min(self._shard, (len(cases) + 7) // 8))
-        return coq.eval_cases(f"{self._ctx.pid}_{tag}", imports, ok_fn, case_type, cases, shard=shard)
+        if self._fut is not None and cases == self._terms:
+            fut, self._fut = self._fut, None
+            return fut.result()
+        return coq.eval_cases(f"{self._ctx.pid}_{tag}_again", imports, ok_fn, case_type, cases, shard=self._shard)
 
 
 def run(ctx):
     ctx.prove(PROOF_FILES, allowed_axioms=(), trusted_base=TRUSTED)
     fam = {f.name: f for f in FAMILIES}
-    plan = [("lsm_seq", 40, ctx.n(120, 5000)), ("lsm_conc", 20, ctx.n(160, 6000)), ("kv_conc", 25, ctx.n(60, 2000)),
-            ("txn", 25, ctx.n(100, 4000)), ("bt_seq", 25, ctx.n(80, 3000)), ("bt_conc", 20, ctx.n(100, 4000))]
-    stats = [run_family(Sharded(ctx, shard), fam[name], n) for name, shard, n in plan]
+    from concurrent.futures import ThreadPoolExecutor
+    plan = [("lsm_seq", ctx.n(100, 2500)), ("lsm_conc", ctx.n(200, 3000)), ("kv_conc", ctx.n(60, 1500)),
+            ("txn", ctx.n(100, 2500)), ("bt_seq", ctx.n(80, 2000)), ("bt_conc", ctx.n(100, 2500))]
+    stats = []
+    with ThreadPoolExecutor(max_workers=6) as pool:
+        pres = [Pre(ctx, fam[name], n, pool) for name, n in plan]
+        ctx.log("pre-pass done: implementation executed on all cases, in-Coq evaluation running")
+        for (name, n), pre in zip(plan, pres):
+            stats.append(run_family(pre, pre.fam, n))
+            ctx.log(f"family {name}: {stats[-1]['cases']} cases, mismatches={stats[-1]['mismatches']}, oracle_failures={stats[-1]['oracle_failures']} known={stats[-1]['known']}")
     merge_stats(ctx, stats, "random workloads over 2-6 keys (B-tree up to 20), memtable size 1-4, 1-4 levels, three strategies, B-tree order 3-6; "
                             "start offsets chosen on a grid that lands inside flush/compaction/split/commit windows; "
                             "non-trivial = >=2 compactions and a delete (lsm_seq), a read overlapping a flush/compaction window (lsm_conc), "
